@@ -161,7 +161,27 @@ func orderAndCopies(e *Env) {
 		effTimeout = 60 * time.Second
 	}
 	longLeft := g.W(6, 2, 2) // invocations that sleep 1.2-3 x the timeout
-	s := startSession(e, g.Knobs(ClientOpts{Nick: "me", Flood: true, Track: g.Pct(30), PingFreq: []time.Duration{0, 3 * time.Second}[g.Intn(2)], Timeout: timeout}),
+	oc := ClientOpts{Nick: "me", Flood: true, Track: g.Pct(30), PingFreq: []time.Duration{0, 3 * time.Second}[g.Intn(2)], Timeout: timeout}
+	barePing := false
+	if c15 && g.Bool() {
+		// a recovery function that annotates the line it is handed (the copy of
+		// the invocation that panicked), and bare PING lines on which the
+		// built-in handler panics: no other invocation may see the annotation
+		oc.Recover = func(c *client.Conn, l *client.Line) {
+			if r := recover(); r != nil {
+				l.Args = append(l.Args, "annotated-by-recover")
+				l.Tags = map[string]string{"panicked": "yes"}
+				l.Nick = "mallory"
+			}
+		}
+		barePing = true
+		for _, v := range verbs {
+			if v == "PING" {
+				barePing = false
+			}
+		}
+	}
+	s := startSession(e, g.Knobs(oc),
 		func(l *simnet.Link) { l.ChunkMode = g.Intn(4); l.Window = []int{0, 0, 0, 16, 64, 300}[g.Intn(6)] })
 	longBudget := time.Duration(longLeft) * 3 * effTimeout
 	// replace the default scripted server: registration, then the stream with
@@ -212,6 +232,9 @@ func orderAndCopies(e *Env) {
 				l.SendLine(evs[i].wire)
 				if c15 && e.S.Choose(6) == 0 {
 					l.SendLine(":u!i@h.sim AWAY")
+				}
+				if barePing && e.S.Choose(6) == 0 {
+					l.SendLine("PING")
 				}
 				if e.S.Choose(5) == 0 {
 					simrt.Sleep(time.Duration(e.S.Choose(3)) * time.Millisecond)
@@ -366,6 +389,10 @@ func orderAndCopies(e *Env) {
 			s.c.Handle(client.CONNECTED, bareHandler("fg"))
 			s.c.HandleBG(client.DISCONNECTED, bareHandler("bg"))
 			s.c.Handle(client.REGISTER, bareHandler("fg"))
+			if barePing {
+				s.c.Handle("PING", bareHandler("fg"))
+				s.c.HandleBG("PING", bareHandler("bg"))
+			}
 		}
 	}
 	for k := g.Range(1, 2); k > 0; k-- {
